@@ -9,7 +9,7 @@ use vbase::{ensure, fail};
 
 use crate::sx::{cmp_node, walk};
 
-pub const RULE: &str = "cases are well-formed JSON texts (generated with independent layout incl. duplicate keys, escapes, long strings, every alignment prefix 0..64; golden documents padded to every total length; the repository's benchmark corpus files). Each is parsed through the routes {from_slice/from_str whole input (in-place padded parser), struct field, Option<Value> behind whitespace, two elements of Vec<Value>, 2nd and 3rd document of Deserializer::deserialize and of into_stream (copying parser)} x {default, use_rawnumber(), utf8_lossy()}; every resulting Value is walked through the public read API and compared node by node with the reference parse (order and duplicates kept, decoded strings, numbers by the C07 rule, raw numbers byte-equal to the literal); routes must also agree with each other by == and to_string; sub-check stream-mix reads 2..6 generated documents (incl. many-small, bracket-burst and skip-stress ones) through ONE deserializer into alternating targets (Value, LazyValue, IgnoredAny, OwnedLazyValue) and requires each to come out as if parsed alone. Every Deserializer route parses from a private heap copy of the text that is overwritten and freed before the Value is walked (a Value has no lifetime and must own everything). Non-trivial = at least one container and at least three values; distinct by text.";
+pub const RULE: &str = "cases are well-formed JSON texts (generated with independent layout incl. duplicate keys, escapes, long strings, every alignment prefix 0..64; golden documents padded to every total length; the repository's benchmark corpus files). Each is parsed through the routes {from_slice/from_str whole input (in-place padded parser), struct field, Option<Value> behind whitespace, two elements of Vec<Value>, 2nd and 3rd document of Deserializer::deserialize and of into_stream (copying parser)} x {default, use_rawnumber(), utf8_lossy(), both options in either order}; from_reader with the text arriving whole, byte by byte, in 5-byte pieces with interruptions, and in growing pieces; every resulting Value is walked through the public read API and compared node by node with the reference parse (order and duplicates kept, decoded strings, numbers by the C07 rule, raw numbers byte-equal to the literal); routes must also agree with each other by == and to_string; sub-check stream-mix reads 2..6 generated documents (incl. many-small, bracket-burst and skip-stress ones) through ONE deserializer into alternating targets (Value, LazyValue, IgnoredAny, OwnedLazyValue) and requires each to come out as if parsed alone. Every Deserializer route parses from a private heap copy of the text that is overwritten and freed before the Value is walked (a Value has no lifetime and must own everything). Non-trivial = at least one container and at least three values; distinct by text.";
 pub const ASSUMPTIONS: &[&str] = &["refjson parser is correct (self-tested against serde_json on every run)", "Rust std str::parse::<f64>/<u64>/<i64> are exact"];
 
 #[derive(Deserialize)]
@@ -39,6 +39,9 @@ enum Mode {
     Default,
     Raw,
     Lossy,
+    /// both options, in either order of the builder calls
+    RawLossy,
+    LossyRaw,
 }
 
 fn de_with<'a>(input: &'a [u8], mode: Mode) -> Deserializer<sonic_rs::Read<'a>> {
@@ -47,6 +50,8 @@ fn de_with<'a>(input: &'a [u8], mode: Mode) -> Deserializer<sonic_rs::Read<'a>> 
         Mode::Default => d,
         Mode::Raw => d.use_rawnumber(),
         Mode::Lossy => d.utf8_lossy(),
+        Mode::RawLossy => d.use_rawnumber().utf8_lossy(),
+        Mode::LossyRaw => d.utf8_lossy().use_rawnumber(),
     }
 }
 
@@ -92,13 +97,21 @@ pub fn oracle(t: &[u8], obs: &mut Obs) -> Result<(), Fail> {
     check_value("from_str::<Value>", "whole", &node, t, &v1, false)?;
     ensure!(v0 == v1, "C03/whole/routes-disagree", "from_slice and from_str values differ on {:?}", show_bytes(t, 300));
     let s0 = sonic_rs::to_string(&v0).map_err(|e| Fail::new("C03/whole/to_string", format!("{e}")))?;
+    // from_reader, the text arriving in one piece and in small pieces
+    for step in [usize::MAX, 1, 5, 0] {
+        let rd = super::c02::Pieces::new(t, step, step == 5);
+        let v: Value = sonic_rs::from_reader(rd).map_err(|e| Fail::new("C03/reader/rejects-valid", format!("from_reader (pieces of {step}) rejected {:?}: {e}", show_bytes(t, 300))))?;
+        check_value("from_reader::<Value>", "reader", &node, t, &v, false)?;
+    }
 
-    for mode in [Mode::Default, Mode::Raw, Mode::Lossy] {
-        let raw = mode == Mode::Raw;
+    for mode in [Mode::Default, Mode::Raw, Mode::Lossy, Mode::RawLossy, Mode::LossyRaw] {
+        let raw = matches!(mode, Mode::Raw | Mode::RawLossy | Mode::LossyRaw);
         let mname = match mode {
             Mode::Default => "default",
             Mode::Raw => "rawnumber",
             Mode::Lossy => "lossy",
+            Mode::RawLossy => "rawnumber+lossy",
+            Mode::LossyRaw => "lossy+rawnumber",
         };
         // whole input through Deserializer (index 0: in-place)
         let v: Value = scrubbed(t, mode, |mut d| d.deserialize()).map_err(|e| Fail::new("C03/whole/rejects-valid", format!("Deserializer({mname}) rejected {:?}: {e}", show_bytes(t, 300))))?;
@@ -107,7 +120,7 @@ pub fn oracle(t: &[u8], obs: &mut Obs) -> Result<(), Fail> {
         let w = wrap(b"{\"v\": ", t, b"}");
         let x: WrapV = scrubbed(&w, mode, |mut d| d.deserialize()).map_err(|e| Fail::new("C03/embedded/rejects-valid", format!("struct field ({mname}) rejected {:?}: {e}", show_bytes(t, 300))))?;
         check_value("struct field", if raw { "embedded-raw" } else { "embedded" }, &node, t, &x.v, raw)?;
-        if mode != Mode::Raw {
+        if !raw {
             ensure!(x.v == v0, "C03/embedded/routes-disagree", "embedded value != whole-input value on {:?}", show_bytes(t, 300));
             let s1 = sonic_rs::to_string(&x.v).map_err(|e| Fail::new("C03/embedded/to_string", format!("{e}")))?;
             ensure!(s1 == s0, "C03/embedded/routes-disagree", "to_string of embedded value {:?} != whole {:?}", refjson::trunc(&s1, 200), refjson::trunc(&s0, 200));
@@ -180,8 +193,8 @@ pub fn oracle_stream(case: &[u8], obs: &mut Obs) -> Result<(), Fail> {
         return Ok(());
     }
     obs.nt();
-    let mode = [Mode::Default, Mode::Raw, Mode::Lossy][src.below(3)];
-    let raw = mode == Mode::Raw;
+    let mode = [Mode::Default, Mode::Raw, Mode::Lossy, Mode::RawLossy, Mode::LossyRaw][src.below(5)];
+    let raw = matches!(mode, Mode::Raw | Mode::RawLossy | Mode::LossyRaw);
     let sep: &[u8] = *src.pick(&[&b" "[..], b"\n", b"", b"\r\n\t "]);
     let mut text = Vec::new();
     for (i, (d, _)) in docs.iter().enumerate() {
@@ -192,7 +205,7 @@ pub fn oracle_stream(case: &[u8], obs: &mut Obs) -> Result<(), Fail> {
         }
         text.extend_from_slice(d);
     }
-    obs.render = Some(format!("mode={} targets={:?} text={}", ["default", "rawnumber", "lossy"][mode as usize], docs.iter().map(|d| d.1).collect::<Vec<_>>(), show_bytes(&text, 400)));
+    obs.render = Some(format!("mode={} targets={:?} text={}", ["default", "rawnumber", "lossy", "rawnumber+lossy", "lossy+rawnumber"][mode as usize], docs.iter().map(|d| d.1).collect::<Vec<_>>(), show_bytes(&text, 400)));
     let mut de = de_with(&text, mode);
     for (i, (d, target)) in docs.iter().enumerate() {
         let (node, _) = refjson::parse(d).unwrap();
